@@ -732,6 +732,20 @@ def run_full(chk, recorded):
             chk.count("full_boundary")
             for lst, item in zip((cases, impl_outs, metas), built):
                 lst.append(item)
+    # C03-K10 and its boundary: a chain through an origin-spanning gene [7000:12000)+[0:20) whose member before the origin
+    # has its middle in the lower (5400, 5600: put on the wrong side, class C03-K10) / upper (6050: right side) half of
+    # the record, with and without a second chain [2500:2800) that the wrong arc swallows
+    plain = "RULE r0 CATEGORY c CUTOFF 2 NEIGHBOURHOOD 0 CONDITIONS p0"
+    for before in ((5000, 5800), (5200, 6000), (5600, 6500)):
+        for second in (True, False):
+            genes = [("g0", [(50, 80, -1)]), ("g2", [before + (1,)]), ("g5", [(7000, 12000, 1), (0, 20, 1)])]
+            if second:
+                genes.insert(1, ("g1", [(2500, 2800, 1)]))
+            built = build_case(chk, 12000, True, plain, genes, {name: {"p0"} for name, _ in genes}, "boundary")
+            if built:
+                chk.count("full_boundary")
+                for lst, item in zip((cases, impl_outs, metas), built):
+                    lst.append(item)
     for _ in range(total):
         circular = rng.random() < 0.67
         scenario = rng.choice(["plain", "plain", "cache", "origin"]) if circular else "plain"
@@ -920,11 +934,17 @@ def chain_verdict(meta, protos, anchors):
                          and core[0][0] == min(s for s, _ in comp) and core[0][1] == max(e for _, e in comp)) or \
                         (len(core) == 2 and core[0][1] == length and core[1][0] == 0
                          and core[0][0] in {s for s, _ in comp} and core[1][1] in {e % length if e > length else e for _, e in comp})
+                if tight and wraps:
+                    # a chain through an origin-spanning gene: the core is the SHORTEST arc covering the chain (the ring
+                    # without the largest stretch that no member covers), not just any arc from a start to an end
+                    tight = (core[0][0], core[1][1]) in shortest_cover(comp, length)[1]
                 if not tight:
                     ok = False
         if not ok:
             if circular and long_way_round(length, rule["cutoff"], comps, mine):
                 cls = "chain_not_maximal_long_way_round"
+            elif circular and spanning_chain_over_half(comps, length):
+                cls = "chain_spanning_anchor_wrong_side"     # recorded class C03-K10 (input-level test)
             elif spanning & set(anchors.get(ridx, [])):
                 cls = "origin_spanning_anchor"
             else:
@@ -957,6 +977,28 @@ def superiors_verdict(meta, protos, anchors):
                 return "superior_partial_overlap", (f"rule r{ridx}: the chain {hull} is dropped although no chain of its superiors "
                                                     f"{[hulls[s] for s in rule['sups']]} covers its core genes")
     return None
+
+
+def shortest_cover(comp, length):
+    """ a chain on a ring, members (start, end), an origin-spanning one (start, length + end) -> (length of the shortest arc
+        covering all members, [(arc start, arc end)...] of every arc of that length): the ring without the largest
+        stretch that no member covers """
+    parts = []
+    for start, end in comp:
+        parts += [(start, length, 1), (0, end - length, 1)] if end > length else [(start, end, 1)]
+    cov = covered(parts, length)
+    gaps = [(cov[i][1], cov[i + 1][0]) for i in range(len(cov) - 1)] + [(cov[-1][1], cov[0][0] + length)]
+    best = max(hi - lo for lo, hi in gaps)
+    return length - best, [(hi % length, lo) for lo, hi in gaps if hi - lo == best]
+
+
+def spanning_chain_over_half(comps, length):
+    """ input-level class of finding C03-K10: some maximal chain of the rule contains an origin-spanning anchoring gene
+        and the shortest arc covering the chain is longer than half the record.  (With an origin-bridging location among
+        its arguments connect_locations puts every other location before or after the origin by which END OF THE RECORD
+        its middle is nearer to; for a chain whose shortest covering arc is at most half the record that is always the
+        right side, for a longer one it need not be.) """
+    return any(any(end > length for _, end in comp) and 2 * shortest_cover(comp, length)[0] > length for comp in comps)
 
 
 def long_way_round(length, cutoff, comps, mine):
